@@ -37,7 +37,8 @@ byte included); `uint_no_panic`: for `code < 2 ^ 64` neither happens.  `write_an
 
 Not translated (recorded in the units' `skip`): `new` of both writers and the whole-file drivers `write_aig`,
 `write_ordered_aig`; that `Aiger.writeAig` / `Aiger.binWriteOrderedAig` call the pieces in the order of the Rust
-drivers is not part of this tie.
+drivers is not part of this tie.  (The drivers are translated by the units `aigerwritedoc` / `aigerbinwritedoc` and tied
+in `Props/TieAigerWriteDoc.lean`.)
 -/
 import Flussab.Proof.TieAigerWrite
 
